@@ -117,7 +117,8 @@ func (g *generator) ignoreComment() string {
 }
 
 // commented-out annotations and other-case keywords followed by the lowercase keyword: used as doc lines
-var nearMissDocs = []string{"// @immutables are a convention here", "// @immutableByConvention", "// @constructors NewX", "// @testonlyish helper", "// @packageonlysvc", "// @mutablefields", "// // @immutable", "// / @constructor NewNothing", "//\t// @packageonly nobody", "// // @testonly",
+var nearMissDocs = []string{"//\u00a0@immutable", "// \u3000@testonly", "// \u00a0 @constructor NewNb", "// @immutable\u00a0", "// @packageonly\u2003svc",
+	"/*\nExample of use:\n\t// @immutable\n\t// @constructor NewSnapshot\n\t// @testonly\n*/", "// @immutables are a convention here", "// @immutableByConvention", "// @constructors NewX", "// @testonlyish helper", "// @packageonlysvc", "// @mutablefields", "// // @immutable", "// / @constructor NewNothing", "//\t// @packageonly nobody", "// // @testonly",
 	"// @Immutable is what the original says; the marker @immutable is not applied here", "// @TESTONLY (see @testonly)", "// @Constructor NewX - not @constructor NewX",
 	"// @PackageOnly svc, unlike @packageonly svc"}
 
@@ -353,6 +354,10 @@ func Generate(seed uint64, o Options) *Module {
 					c = strings.Replace(c, "package "+decls[0].name+"\n", "package "+decls[1].name+"\n", 1)
 					c = strings.Replace(c, "package "+decls[0].name+"_test\n", "package "+decls[1].name+"_test\n", 1)
 				}
+				if strings.HasSuffix(name, "/ext_test.go") {
+					// the external test package imports the package it tests (paths of equal length)
+					c = strings.ReplaceAll(c, "\""+decls[0].path+"\"", "\""+decls[1].path+"\"")
+				}
 				m.Files[d1dir+strings.TrimPrefix(name, d0dir)] = c
 			}
 		}
@@ -555,6 +560,9 @@ func (g *generator) body(p *gpkg, vars []scopeVar, extra []string, n int) []stri
 			switch r.Intn(3) {
 			case 0: // standalone before the statement
 				stmts = append(stmts, g.ignoreComment())
+				if g.o.BlankLines && g.lr.Chance(1, 2) {
+					stmts = append(stmts, "") // a blank line between the comment and the statement it covers
+				}
 				stmts = append(stmts, s+" "+tag)
 			case 1: // trailing
 				stmts = append(stmts, s+" "+tag+" "+g.ignoreComment())
@@ -714,9 +722,16 @@ func (g *generator) renderPkg(m *Module, p *gpkg, decls []*gpkg) {
 			if t.pkg != p {
 				direct = p.alias[t.pkg] + "." + t.name
 			}
-			add("type A" + aliasKey(t) + " = " + direct)
+			if g.o.Spelling == 2 {
+				add("type AA" + aliasKey(t) + " = " + direct)
+				add("type A" + aliasKey(t) + " = AA" + aliasKey(t))
+			} else {
+				add("type A" + aliasKey(t) + " = " + direct)
+			}
 		}
 	}
+	add("func pairOf() (int, int) { return 1, 2 }")
+	add("var PairA, PairB = pairOf() " + g.nextTag())
 	add("type Free struct {\n\tX     int\n\tItems []int\n\tAny   any\n}")
 	// every visible type is referenced at least once in every rendering (so that alias declarations of the
 	// spelling variants do not introduce a first reference the base rendering lacks)
@@ -795,6 +810,13 @@ func (g *generator) renderPkg(m *Module, p *gpkg, decls []*gpkg) {
 		} else {
 			b := []string{"*" + recv + "++ " + g.nextTag(), "(*" + recv + ")-- " + g.nextTag(), "*" + recv + " = 5 " + g.nextTag()}
 			add("func (" + recv + " *" + t.name + ") Inc() {\n" + indent(b) + "}")
+		}
+		if t.kind == 0 {
+			add("type recvAlias" + t.name + " = " + t.name)
+			add("func (" + recv + " *recvAlias" + t.name + ") ViaAliasRecv() {\n" + indent([]string{"*" + recv + " = " + t.name + "{} " + g.nextTag(), recv + ".X = 2 " + g.nextTag()}) + "}")
+			add("func (" + recv + " *(" + t.name + ")) ViaParenRecv() {\n" + indent([]string{"*" + recv + " = " + t.name + "{} " + g.nextTag(), recv + ".X++ " + g.nextTag()}) + "}")
+		} else {
+			add("func (" + recv + " *(" + t.name + ")) ViaParenRecv() {\n" + indent([]string{"*" + recv + "++ " + g.nextTag(), "*" + recv + " = 7 " + g.nextTag()}) + "}")
 		}
 		if t.tmeth {
 			add("// @testonly\nfunc (" + recv + " *" + t.name + ") ResetForTest() {}")
@@ -1029,6 +1051,7 @@ func (g *generator) renderPkg(m *Module, p *gpkg, decls []*gpkg) {
 				prologue = append(prologue, "type Rec = "+direct)
 				rec = "Rec"
 			}
+			ex = append(ex, "var ma§, mb§ = pairOf(); _, _ = ma§, mb§", "var mc§, md§ int = pairOf(); _, _ = mc§, md§")
 			ex = append(ex, "var l§ "+rec+"; l§.X = 1", "lp§ := new("+rec+"); lp§.X++", "_ = "+rec+"{X: 2}", "var la§ []"+rec+"; la§[0].Items[0] = 3", "lq§ := &"+rec+"{}; lq§.Cache = 1")
 			// two locals of one name and different types in sibling scopes (the unannotated type first or second)
 			sh := g.local("sh")
@@ -1147,6 +1170,8 @@ func (g *generator) renderPkg(m *Module, p *gpkg, decls []*gpkg) {
 		add("/*\nBlockDoc is documented in a block comment.\n@immutable\n@constructor NewBlockDoc\n*/\ntype BlockDoc struct{ X int }")
 		add("/*\n@testonly\n@packageonly nobody\n*/\nfunc BlockFn() int { return 3 }")
 		add("/* @immutable */\n/* @testonly */\ntype BlockDoc2 struct{ X int }")
+		add("// FieldDocs is documented, its fields carry lines that would be annotations on a type.\ntype FieldDocs struct {\n\t// @immutable\n\t// @constructor NewFieldDocs\n\tX int\n\t// @testonly\n\t// @packageonly nobody\n\tY int\n}")
+		add("func UseFieldDocs(fd *FieldDocs) {\n" + indent([]string{"fd.X = 1 " + g.nextTag(), "fd.Y++ " + g.nextTag(), "_ = FieldDocs{} " + g.nextTag(), "_ = new(FieldDocs) " + g.nextTag()}) + "}")
 		add("func UseBlockDoc(bd *BlockDoc, b2 *BlockDoc2) {\n" + indent([]string{"bd.X = 1 " + g.nextTag(), "_ = BlockDoc{} " + g.nextTag(), "_ = BlockFn() " + g.nextTag(), "b2.X++ " + g.nextTag(), "_ = BlockDoc2{} " + g.nextTag()}) + "}")
 		add("func UseGauge(gg *Gauge) {\n" + indent([]string{"gg.X = 1 " + g.nextTag(), "_ = Gauge{} " + g.nextTag(), "_ = Legacy() " + g.nextTag(), "_ = DetachedDoc() " + g.nextTag(),
 			"// @immutable", "type localT struct{ Y int }", "var lt localT " + g.nextTag(), "lt.Y = 2 " + g.nextTag(), "_ = lt"}) + "}")
@@ -1373,6 +1398,8 @@ func (g *generator) renderPkg(m *Module, p *gpkg, decls []*gpkg) {
 		// annotated functions / methods / types in an excluded (non-test) file: inert, whoever uses them
 		m.Files[dir+"/zz_testdata_decl.go"] = "package " + p.name + "\n\n// @testonly\n// @packageonly nobody\nfunc ExclHelper() int { return 1 }\n\n// @testonly\ntype ExclMock struct{ Z int }\n\n// @testonly\nfunc (e *ExclMock) Touch() {}\n"
 		// external test package
-		m.Files[dir+"/ext_test.go"] = "package " + p.name + "_test\n\nimport \"testing\"\n\nfunc TestNothing(t *testing.T) {}\n"
+		self := p.path
+		m.Files[dir+"/export_test.go"] = "package " + p.name + "\n\n// DeclInTest is declared in a test file of the package.\n// @immutable\n// @constructor NewDeclInTest\ntype DeclInTest struct{ X int }\n\nfunc NewDeclInTest() *DeclInTest { return &DeclInTest{} }\n"
+		m.Files[dir+"/ext_test.go"] = "package " + p.name + "_test\n\nimport (\n\t\"testing\"\n\n\tself \"" + self + "\"\n)\n\nfunc TestNothing(t *testing.T) {\n\td := self.NewDeclInTest() " + g.nextTag() + "\n\td.X = 1 " + g.nextTag() + "\n\t_ = self.DeclInTest{} " + g.nextTag() + "\n}\n"
 	}
 }
